@@ -31,7 +31,7 @@ func init() {
 }
 
 func runC05(c *an.Ctx) {
-	c.Floor("C05-R1", 1)
+	c.Floor("C05-R1", 3)
 	c.Floor("C05-R2", 3)
 	c.Floor("C05-R3", 1)
 	c.Floor("C05-R4", 5)
@@ -181,6 +181,75 @@ func runC05(c *an.Ctx) {
 				return ""
 			}
 			return "the upstream answer processed with this request's data; got " + fmt.Sprint(missw)
+		},
+	})
+
+	// ---- R1b: family and location used for the upstream subnet
+	decide(c, "C05-R1", "ecscache.ecsFamFromReq", an.DecideCfg{
+		Dom: an.Domain{"p0.ECS": {an.Nil(), an.NonNil("ecs")}, "is4": an.Bools},
+		OnCall: func(it *an.Interp, name string, args []an.AV) (an.AV, bool) {
+			switch name {
+			case "(net/netip.Prefix).Addr":
+				return an.Sym("addr(" + args[0].String() + ")"), true
+			case "(net/netip.Addr).Is4":
+				return it.Feature("is4"), true
+			}
+			return an.AV{}, false
+		},
+		Expect: func(f an.Features, o an.AOutcome) string {
+			// which address was tested?
+			tested := ""
+			for _, e := range o.Effects {
+				if e.Kind == "call" && e.Name == "(net/netip.Addr).Is4" {
+					tested = e.Args[0]
+				}
+			}
+			wantAddr := "p0.RemoteIP"
+			if !f.IsNil("p0.ECS") {
+				wantAddr = "addr(ecs.Subnet)"
+			}
+			if tested != wantAddr {
+				return "the family of " + wantAddr + " (the client's ECS subnet when present, else its address); tested " + tested
+			}
+			v4, _ := c.ConstInt("github.com/AdguardTeam/golibs/netutil", "AddrFamilyIPv4")
+			v6, _ := c.ConstInt("github.com/AdguardTeam/golibs/netutil", "AddrFamilyIPv6")
+			want := v6
+			if f.B("is4") {
+				want = v4
+			}
+			if o.RetString() == fmt.Sprint(want) {
+				return ""
+			}
+			return fmt.Sprint(want)
+		},
+	})
+	decide(c, "C05-R1", "ecscache.locFromReq", an.DecideCfg{
+		Dom: an.Domain{"p0.ECS": {an.Nil(), an.NonNil("ecs")}, "ecs.Location": {an.Nil(), an.NonNil("ecsloc")}, "p0.Location": {an.Nil(), an.NonNil("riloc")},
+			`(ecsloc.Country == "")`: an.Bools},
+		Expect: func(f an.Features, o an.AOutcome) string {
+			if o.Exit != "return" || len(o.Ret) != 1 {
+				return "a location"
+			}
+			k := strings.TrimPrefix(o.Ret[0].String(), "&")
+			ctry, asn := o.Mem[k+".Country"].String(), o.Mem[k+".ASN"].String()
+			fromECS := !f.IsNil("p0.ECS") && !f.IsNil("ecs.Location") && !f.B(`(ecsloc.Country == "")`)
+			switch {
+			case fromECS:
+				if ctry == "ecsloc.Country" && asn == "ecsloc.ASN" {
+					return ""
+				}
+				return "country and ASN of the ECS option's location"
+			case !f.IsNil("p0.Location"):
+				if ctry == "riloc.Country" && asn == "riloc.ASN" {
+					return ""
+				}
+				return "country and ASN of the client address's location; got " + ctry + "/" + asn
+			default:
+				if ctry == `""` || ctry == "ecsloc.Country" {
+					return ""
+				}
+				return "no country when nothing is known; got " + ctry
+			}
 		},
 	})
 
